@@ -1,4 +1,3 @@
 package main
 
-func (cc *checkCtx) gatherSweep()                            {}
 func (cc *checkCtx) extraEvidence(ev map[string]interface{}) {}
